@@ -285,6 +285,34 @@ func TestGvcReplay(t *testing.T) {
 	}
 }
 `}},
+		clauseScenario{"task.run", "arg2.Live", scenario{pkgRel: "", what: "an argument after -- that contains template syntax is expanded by the template engine before it reaches the command",
+			src: gvcCLIHeader + `
+func TestGvcReplay(t *testing.T) {
+	dir := t.TempDir()
+	tf := "version: '3'\nsilent: true\ntasks:\n  show:\n    cmds:\n      - printf '<%s>' {{.CLI_ARGS}}\n"
+	if err := os.WriteFile(filepath.Join(dir, "Taskfile.yml"), []byte(tf), 0o644); err != nil {
+		t.Fatal(err)
+	}
+	out := gvcCLI(t, dir, "show", "--", "{{.X}}", "a{{\"{{\"}}b")
+	if out != "<{{.X}}><a{{\"{{\"}}b>" {
+		t.Fatalf("GVC-REPLAY-REPRODUCED: task show -- '{{.X}}' 'a{{\"{{\"}}b' passed %q to the command", out)
+	}
+}
+`}},
+		clauseScenario{"v3.(*Compiler).getVariables$1$1", "arg0.Live", scenario{pkgRel: "", what: "an argument after -- that contains template syntax is expanded by the template engine before it reaches the command",
+			src: gvcCLIHeader + `
+func TestGvcReplay(t *testing.T) {
+	dir := t.TempDir()
+	tf := "version: '3'\nsilent: true\ntasks:\n  show:\n    cmds:\n      - printf '<%s>' {{.CLI_ARGS}}\n"
+	if err := os.WriteFile(filepath.Join(dir, "Taskfile.yml"), []byte(tf), 0o644); err != nil {
+		t.Fatal(err)
+	}
+	out := gvcCLI(t, dir, "show", "--", "{{.X}}", "a{{\"{{\"}}b")
+	if out != "<{{.X}}><a{{\"{{\"}}b>" {
+		t.Fatalf("GVC-REPLAY-REPRODUCED: task show -- '{{.X}}' 'a{{\"{{\"}}b' passed %q to the command", out)
+	}
+}
+`}},
 		clauseScenario{"task.run", "CLI_ARGS", scenario{pkgRel: "", what: "arguments after -- do not reach {{.CLI_ARGS}} as the same words",
 			src: gvcCLIHeader + `
 func TestGvcReplay(t *testing.T) {
